@@ -268,7 +268,7 @@ func TestDriveC18(t *testing.T) {
 		must(os.Symlink(filepath.Join("releases", "v2"), filepath.Join(base, "current")))
 		markD, markE := filepath.Join(dir, "marker-dd-lexical"), filepath.Join(dir, "marker-dd-real")
 		for _, realAttr := range [][3]int{{1000, 1000, 0o777}, {0, 0, 0o755}, {0, 1000, 0o775}} {
-			putRel(filepath.Join(base, "tool.sh"), markD, 0, 0, 0o755)                                                  // what a lexical clean-up finds
+			putRel(filepath.Join(base, "tool.sh"), markD, 0, 0, 0o755)                                                    // what a lexical clean-up finds
 			putRel(filepath.Join(base, "releases", "tool.sh"), markE, realAttr[0], realAttr[1], os.FileMode(realAttr[2])) // what runs
 			os.Remove(markD)
 			os.Remove(markE)
